@@ -386,6 +386,7 @@ theorem key_eq_rfc9106 (y : Nat) (P S K X : Bytes) (t m p T : Nat)
   unfold deriveKey argon2RFC
   rw [if_neg (by omega), if_neg (by omega), initHash_eq_spec]
   simp only []
+  rw [roundMemoryGo_eq m p hm32 hp hp8]
   generalize C05.blake2Spec C05.B 64 [] _ = h0
   obtain ⟨⟨k, hk, hk2⟩, hge, hlt⟩ := roundMemory_spec m p (by omega)
   generalize hm' : roundMemory m p = m' at *
